@@ -23,6 +23,10 @@ import HL.Lemmas.ParserTwin
   * `C07_suffix_independent_of_damage`  two different damages `Ed₁ Ed₂` leave the part parsed
                            from `B` identical (journal content and errors) whenever they leave
                            the same default year.
+  * `C07_contained_partial` both sides at once: prefix identical, suffix identical up to the
+                           shift, the entry's errors inside the entry (guard: both versions of
+                           the entry start in column 1 at the same position and contain no
+                           Directive token).
   * `C07_prefix_partial`   entries BEFORE the damage: identical in both files provided both
                            versions of the damaged entry start in column 1 at the same position
                            (guard); `C07_blank_line_after_error_counterexample` shows the guard
@@ -389,6 +393,79 @@ theorem C07_prefix_partial (A Y' Z' : List Token) (nlA y0 z0 : Token)
     rw [this]
     simp only [List.nil_append] at p2 ⊢
     exact Prod.ext (by rw [← p2.1]; rfl) (by rw [← p2.2]; rfl)
+
+/-- **C07 on token streams, both sides at once (`_partial`).**
+    Intact file  `A ⏎ Ed₁ ⏎ B`, damaged file `A ⏎ Ed₂ ⏎ B↓d` (the damage replaced the entry `Ed₁`
+    by ANY tokens `Ed₂` without EOF and moved the rest of the file by `d` lines/bytes).
+    Guard: both versions start in column 1 at the same position (`e1.pos = e2.pos`, neither an
+    Indent nor a Newline), and neither contains a Directive token (no `Y` directive appears or
+    disappears — the stated dependence of C07 on the default year).  Then
+      * what precedes the entry is parsed identically in both files: the same `itemsA`, the same
+        errors `errsA`;
+      * what follows it is parsed to the same journal `JB` with the same errors `EB`, up to the
+        shift `d` of every position;
+      * the only other errors are `errsE₁` / `errsE₂`, sitting on tokens of `Ed₁` / `Ed₂` or on
+        the Newline that ends the entry. -/
+theorem C07_contained_partial (d : Shift) (A Ed1' Ed2' B' : List Token) (nlA nlE1 nlE2 e1 e2 b0 : Token)
+    (hA : ∀ t ∈ A, t.ty ≠ .eof)
+    (hEd1 : ∀ t ∈ e1 :: Ed1', t.ty ≠ .eof ∧ t.ty ≠ .directive)
+    (hEd2 : ∀ t ∈ e2 :: Ed2', t.ty ≠ .eof ∧ t.ty ≠ .directive)
+    (hnA : nlA.ty = .newline) (hn1 : nlE1.ty = .newline) (hn2 : nlE2.ty = .newline)
+    (he1 : e1.ty ≠ .indent ∧ e1.ty ≠ .newline) (he2 : e2.ty ≠ .indent ∧ e2.ty ≠ .newline)
+    (hpos : e1.pos = e2.pos)
+    (hb0 : b0.ty ≠ .indent ∧ b0.ty ≠ .newline) (hB : ∃ t ∈ b0 :: B', t.ty = .eof) :
+    ∃ itemsA errsA dyA itemsE1 itemsE2 errsE1 errsE2,
+      let JB := (parseFrom num cls b0 B' dyA).1
+      let EB := (parseFrom num cls b0 B' dyA).2
+      parseTokens num cls (A ++ nlA :: e1 :: Ed1' ++ nlE1 :: b0 :: B') =
+        (pushAll (itemsA ++ itemsE1) JB, errsA ++ errsE1 ++ EB) ∧
+      parseTokens num cls (A ++ nlA :: e2 :: Ed2' ++ nlE2 :: d.tok b0 :: B'.map d.tok) =
+        (pushAll (itemsA ++ itemsE2) (d.journal JB), errsA ++ errsE2 ++ EB.map d.perr) ∧
+      ErrZone (e1 :: Ed1') nlE1 errsE1 ∧ ErrZone (e2 :: Ed2') nlE2 errsE2 := by
+  have hB2 : ∃ t ∈ d.tok b0 :: B'.map d.tok, t.ty = .eof := by
+    obtain ⟨t, ht, he⟩ := hB
+    refine ⟨d.tok t, ?_, by simpa using he⟩
+    simp only [List.mem_cons, List.mem_map] at ht ⊢
+    rcases ht with h | h
+    · exact Or.inl (by rw [h])
+    · exact Or.inr ⟨t, h, rfl⟩
+  have hE1 : ∃ t ∈ e1 :: (Ed1' ++ nlE1 :: b0 :: B'), t.ty = .eof := by
+    obtain ⟨t, ht, he⟩ := hB
+    exact ⟨t, by simp at ht ⊢; rcases ht with h | h <;> simp [h], he⟩
+  -- the common part
+  obtain ⟨itemsA, errsA, dyA, hp1, hp2⟩ :=
+    C07_prefix_partial num cls A (Ed1' ++ nlE1 :: b0 :: B') (Ed2' ++ nlE2 :: d.tok b0 :: B'.map d.tok)
+      nlA e1 e2 hA hnA he1 he2 hpos hE1
+  -- each tail: the entry, then the rest
+  obtain ⟨iE1, eE1, dyE1, z1, hd1, hj1, hr1⟩ :=
+    blank_line_closes num cls (e1 :: Ed1') nlE1 b0 B' (fun t ht => (hEd1 t ht).1) hn1 hb0.1 hb0.2 hB
+      (headState e1 (Ed1' ++ nlE1 :: b0 :: B') [] dyA) (by simp [strm, headState])
+  obtain ⟨iE2, eE2, dyE2, z2, hd2, hj2, hr2⟩ :=
+    blank_line_closes num cls (e2 :: Ed2') nlE2 (d.tok b0) (B'.map d.tok) (fun t ht => (hEd2 t ht).1) hn2
+      (by simpa using hb0.1) (by simpa using hb0.2) hB2
+      (headState e2 (Ed2' ++ nlE2 :: d.tok b0 :: B'.map d.tok) [] dyA) (by simp [strm, headState])
+  have y1 : dyE1 = dyA := by simpa [headState] using hd1 (fun t ht => (hEd1 t ht).2)
+  have y2 : dyE2 = dyA := by simpa [headState] using hd2 (fun t ht => (hEd2 t ht).2)
+  rw [y1] at hj1 hr1
+  rw [y2, parse_shift] at hj2 hr2
+  refine ⟨itemsA, errsA, dyA, iE1, iE2, eE1, eE2, ?_, ?_, z1, z2⟩
+  · have e : A ++ nlA :: e1 :: Ed1' ++ nlE1 :: b0 :: B' = A ++ nlA :: e1 :: (Ed1' ++ nlE1 :: b0 :: B') := by simp
+    rw [e, hp1]
+    have a : (parseFrom num cls e1 (Ed1' ++ nlE1 :: b0 :: B') dyA).1 =
+        pushAll iE1 (parseFrom num cls b0 B' dyA).1 := hj1
+    have b : (parseFrom num cls e1 (Ed1' ++ nlE1 :: b0 :: B') dyA).2 =
+        eE1 ++ (parseFrom num cls b0 B' dyA).2 := by
+      have := hr1; simpa [headState, parseFrom] using this
+    rw [a, b, pushAll_append, List.append_assoc]
+  · have e : A ++ nlA :: e2 :: Ed2' ++ nlE2 :: d.tok b0 :: B'.map d.tok =
+        A ++ nlA :: e2 :: (Ed2' ++ nlE2 :: d.tok b0 :: B'.map d.tok) := by simp
+    rw [e, hp2]
+    have a : (parseFrom num cls e2 (Ed2' ++ nlE2 :: d.tok b0 :: B'.map d.tok) dyA).1 =
+        pushAll iE2 (d.journal (parseFrom num cls b0 B' dyA).1) := hj2
+    have b : (parseFrom num cls e2 (Ed2' ++ nlE2 :: d.tok b0 :: B'.map d.tok) dyA).2 =
+        eE2 ++ (parseFrom num cls b0 B' dyA).2.map d.perr := by
+      have := hr2; simpa [headState, parseFrom] using this
+    rw [a, b, pushAll_append, List.append_assoc]
 
 /-! ### counterexamples (closed token lists taken from the real lexer; `decide`) -/
 
